@@ -121,7 +121,20 @@ def native_obs(art, inputs, profile='dev'):
 
 
 def sym_obs(it, s):
-    """the same observations computed by the MIR interpreter"""
+    """the same observations computed by the MIR interpreter (interpreter state is restored afterwards, also when the
+    interpretation is abandoned with Unsupported / OutsideModel in the middle of a critical section)"""
+    snap = {k: c.v for k, c in it.statics.items()}
+    try:
+        return _sym_obs(it, s)
+    finally:
+        for k, c in list(it.statics.items()):
+            if k in snap:
+                c.v = snap[k]
+            else:
+                del it.statics[k]
+
+
+def _sym_obs(it, s):
     res = {}
     snap = {k: c.v for k, c in it.statics.items()}
     # parse / expr / describe / reparse
